@@ -330,6 +330,8 @@ def snippet(spec, hist, note=""):
         "    def total(self, c): return sum(c.values()) if isinstance(c, dict) else sum(c)",
         "    def pick(self, x, k=1): return x * k + 1",
         "    def hyp(self, x, y): return x * x + y * y",
+        "    def kw(self, *a, **k): return (tuple(a), tuple(k.items()))",
+        "    def size(self, c): return len(c)",
         "class O:",
         "    def __init__(self, **kw): self.__dict__.update(kw)",
         "PObj = O",
